@@ -14,8 +14,8 @@ from .report import AnalysisError
 from .strabs import Alt, Cat, Hole, Lit, S, Star, holes
 from .xsd import ANY
 
-M0, M1 = "", ""
-_MARK = re.compile("(\\d+)")
+M0, M1 = "\ue000", "\ue001"
+_MARK = re.compile("\ue000(\\d+)\ue001")
 
 TEXT, TAG, ADQ, ASQ, PI, COMMENT = "text", "tag", 'attr"', "attr'", "pi", "comment"
 
@@ -244,6 +244,7 @@ def skeleton(s, nsmap):
         return n
 
     top = conv(root, None)
+    _mc_preprocess(top)
     roots = top.children
     for r in roots:
         r.parent = None
@@ -269,6 +270,27 @@ def skeleton(s, nsmap):
                 mk.node = o if o is not top else None
                 mk.attr = None
     return sk
+
+
+MC_NS = "{http://schemas.openxmlformats.org/markup-compatibility/2006}"
+
+
+def _mc_preprocess(node):
+    """Markup-compatibility preprocessing: mc:AlternateContent is replaced by the content of its
+    mc:Fallback (a consumer that understands no Choice namespace sees exactly that)."""
+    new = []
+    for c in node.children:
+        if c.kind == "elem" and c.tag == MC_NS + "AlternateContent":
+            for g in c.children:
+                if g.kind == "elem" and g.tag == MC_NS + "Fallback":
+                    for x in g.children:
+                        x.parent = node
+                        _mc_preprocess(x)
+                        new.append(x)
+            continue
+        _mc_preprocess(c)
+        new.append(c)
+    node.children = new
 
 
 def _col(e):
